@@ -18,6 +18,8 @@ DESIGN = dict(
     DirtyScratch=False,     # object.go validateStruct allocates its scratch map of present fields per call
     SharedMarks=False,      # object.go inlineShorthandTerminates keeps its visited set per call
     SharedInProgress=False, # object.go validateSchemaCompatibility keeps no state across calls
+    StaleMemo=False,        # units.go parse keeps no memo of the last text
+    SharedError=False,      # property.go builds a new ConstraintError for every use of a disabled property
     NoStepMutex=False,      # step.go 200-223 holds initializerMutex
     EnumEarlyReturn=False,  # enum.go: repaired (return nil -> continue)
 )
@@ -33,6 +35,7 @@ CONCRETE = {
     ("units0", "rebuilt"): ["int_chars", "int_pct", "float_pct", "int_custom0"],
     ("objmap", "fresh"): ["objmap"], ("objmap", "rebuilt"): ["objmap", "plugin_input"],
     ("objstruct", "fresh"): ["objstruct"], ("objstruct", "rebuilt"): ["objstruct"],
+    ("disabled", "fresh"): ["disabled"], ("disabled", "rebuilt"): ["disabled"],
     ("chain", "fresh"): ["chain"], ("chain", "rebuilt"): ["chain"],
     ("compat2", "fresh"): ["compat2"], ("compat2", "rebuilt"): ["compat2"],
     ("objnest", "fresh"): ["objnest"], ("objnest", "rebuilt"): ["objnest"],
@@ -44,6 +47,17 @@ CONCRETE = {
 }
 
 _lock = threading.Lock()
+
+
+def family(kind):
+    return "units" if kind == "units0" else kind
+
+
+def arg_class(tok):
+    """class of an argument in a signature (as argClass in harness/cmd/instance/main.go)"""
+    if tok.startswith("lim_"):
+        return "limits_given"
+    return {"nrand": "limits_left_out", "str_over": "out_of_range", "list_over": "out_of_range"}.get(tok, tok)
 
 
 def call_of(e):
@@ -150,7 +164,7 @@ def consume(ctx, cases, results, need_race=False):
                 first = outcomes.setdefault(key, (outcome, case))
                 if first[0] != outcome:
                     ck, origin, op, tok, _ = key.split("/", 4)
-                    ctx.violation(dict(kind=case.get("kind"), op=op, arg_class=tok, divergence="result_depends_on_other_instances"),
+                    ctx.violation(dict(kind=family(case.get("kind")), op=op, arg_class=arg_class(tok), divergence="result_depends_on_other_instances"),
                                   dict(case=case, other_case=first[1], detail=dict(key=key, outcome=outcome, other_outcome=first[0],
                                        note="the same call on the same kind of schema returned different results in two "
                                             "histories / processes of this run although each was deterministic and equal to "
@@ -236,7 +250,7 @@ def validate_trace(ctx, trace, tag, concurrent=False):
                     continue     # caused by an earlier (rejected) call of this history
                 divs.add(TRACE_WHY.get(w, w))
             for div in sorted(divs):
-                cls = line["tok"]
+                cls = arg_class(line["tok"])
                 if line["kind"] == "objnest":
                     cls = "limits_given" if line["tok"].startswith("lim_") else "limits_left_out"
                 if line["kind"] in ("objmap", "objstruct") and line["op"] == "unser" and line["tok"] != "bad":
@@ -244,7 +258,7 @@ def validate_trace(ctx, trace, tag, concurrent=False):
                     cls = "default_filling" if (m["n"] < 0 or (line["kind"] == "objstruct" and m["sa"] < 0 and m["sb"] < 0)) else "complete"
                     if div not in ("defaults_changed", "describe_changed"):
                         cls = line["tok"]
-                sig = dict(kind=line["kind"], op=line["op"], arg_class=cls, divergence=div)
+                sig = dict(kind=family(line["kind"]), op=line["op"], arg_class=cls, divergence=div)
                 if concurrent:
                     sig = dict(kind=("units" if line["kind"] == "units0" else line["kind"]), op=line["op"],
                                divergence="result_differs_from_isolated")
